@@ -9,7 +9,9 @@
     import / builtins lookup / getattr / calls (finite tables materialised by the
     harness from the real objects).  Float arithmetic is modelled only where one
     operand is a zero (all that evaluating a repr needs; exact for IEEE 754, signs
-    of zero included); anything else answers [EUnknown] and is not compared. *)
+    of zero included); anything else answers [EUnknown] and is not compared.  Sequence
+    repetition is built up to [rep_limit] elements; beyond it ([sys.maxsize * (1,)], where the
+    interpreter raises MemoryError) the answer is [EUnknown] too. *)
 From Coq Require Import ZArith List Bool.
 From CV Require Import Lib.Sx Lib.ListZ.
 Import ListNotations.
